@@ -7,8 +7,8 @@
 //@harness name=rnd_range_and_lcg tier=quick label=proved props=C07 timeout=600
 //@harness name=mseq_step tier=quick label=proved props=C07
 //@harness name=new_is_fixed_seed tier=quick label=bounded(nlpf<=3) props=C07
-//@harness name=ring_buffer_step_idx0 tier=quick label=bounded(nlpf=3) props=C07 timeout=600
-//@harness name=ring_buffer_step_idx2 tier=quick label=bounded(nlpf=3) props=C07 timeout=600
+//@harness name=ring_buffer_step_idx0 tier=thorough label=bounded(nlpf=3) props=C07 timeout=600
+//@harness name=ring_buffer_step_idx2 tier=thorough label=bounded(nlpf=3) props=C07 timeout=600
 use super::*;
 
 // ASSUMED: sqrt returns a finite non-negative value (CBMC's libm models are not usable, P3)
